@@ -2414,9 +2414,14 @@ evhttp_get_body(struct evhttp_connection *evcon, struct evhttp_request *req)
 {
 	const char *xfer_enc;
 
-	/* If this is a request without a body, then we are done */
+	/* If this is a request without a body, then we are done.  Whether
+	 * there is one is announced by Content-Length or Transfer-Encoding,
+	 * whatever the method (RFC 9112, 6): a body we did not read would be
+	 * parsed as the next request. */
 	if (req->kind == EVHTTP_REQUEST &&
-	    !evhttp_method_may_have_body_(evcon, req->type)) {
+	    !evhttp_method_may_have_body_(evcon, req->type) &&
+	    evhttp_find_header(req->input_headers, "Content-Length") == NULL &&
+	    evhttp_find_header(req->input_headers, "Transfer-Encoding") == NULL) {
 		evhttp_connection_done(evcon);
 		return;
 	}
